@@ -127,6 +127,9 @@ func c13GenHist(r *rng, n int, w *bufio.Writer) {
 			}
 		}
 		world := fGenWorld(r, maxLines, r.n(3))
+		if r.chance(1, 3) {
+			fAddDomainCluster(r, world)
+		}
 		diff, entries, t := fHistory(r, world, nq)
 		ans := "T"
 		note := fmt.Sprintf("history of %d queries; %s", nq, world.describe())
